@@ -104,6 +104,7 @@ fn main() {
         }
         Some("c05-serve") => std::process::exit(props::c05::serve()),
         Some("c05-rows") => props::c05::print_rows(),
+        Some("c11-show") => props::c11::show(pos.get(1).unwrap_or_else(|| usage())),
         Some("c18-digest") => {
             for l in props::c18::digest_lines() {
                 println!("{l}");
